@@ -201,6 +201,13 @@ func cmdCheck(args []string) int {
 		undecided = append(undecided, lerr.Error())
 	}
 	obls = append(obls, lobls...)
+	// bounded stand-ins (never counted as proved)
+	var boundedRes []*BoundedResult
+	for _, bc := range p.con.Bounded {
+		if hasProp(bc.Props, *prop) {
+			boundedRes = append(boundedRes, p.runBounded(bc))
+		}
+	}
 	if len(obls) == 0 && len(undecided) > 0 {
 		for _, u := range undecided {
 			fmt.Println("UNDECIDED property=" + *prop + " " + u)
@@ -321,6 +328,26 @@ func cmdCheck(args []string) int {
 		fmt.Printf("VIOLATION property=%s replay=%s%s\n", *prop, path, suffix)
 		fmt.Printf("  failed obligation %s [%s] at %s: %s (solver: %s)\n", o.Name, o.Kind, o.Where, o.Text, o.Result.Status)
 		exit = 1
+	}
+	var boundedSamples []map[string]any
+	for _, br := range boundedRes {
+		if br.Err != nil {
+			fmt.Println("UNDECIDED property=" + *prop + " " + br.Check.Name + ": " + br.Err.Error())
+			if exit == 0 {
+				exit = 2
+			}
+			continue
+		}
+		boundedSamples = append(boundedSamples, map[string]any{"check": br.Check.Name, "bound": fmt.Sprintf("all strings up to length %d over an 11-letter alphabet", br.Check.MaxLen), "evaluations": br.Evaluations, "ok": br.OK})
+		if !br.OK {
+			os.MkdirAll(replayDir, 0o755)
+			path := filepath.Join(replayDir, sanitize(br.Check.Name)+".json")
+			b, _ := json.MarshalIndent(map[string]any{"property": *prop, "obligation": br.Check.Name, "kind": "bounded", "witness": br.Witness, "detail": br.Detail, "where": br.Check.Where,
+				"note": "bounded check (not a proof): the witness string is a concrete failing input", "reproduced": true}, "", " ")
+			os.WriteFile(path, b, 0o644)
+			fmt.Printf("VIOLATION property=%s replay=%s\n  bounded check %s failed: %s\n", *prop, path, br.Check.Name, br.Detail)
+			exit = 1
+		}
 	}
 	// evidence
 	var used []string
